@@ -61,14 +61,14 @@ func (c09) Info() core.Info {
 			"sections with alignment stuffing are not 'canonical': re-encoding their decoded form need not reproduce the stuffing",
 			"on a decoded signal with foreign descriptors the descriptor list is not replaced (where foreign descriptors would go is not defined); their order relative to segmentation descriptors must be kept",
 		},
-		RequiredProbes: []string{"encoded", "decoded_again", "reencoded_identical", "start_from_decoded", "flag_cleared_after_set", "value_beyond_field_width", "insert_cancelled", "insert_component_mode", "insert_with_duration", "descriptor_cancelled", "descriptor_components", "mid_set", "upid_set", "sub_segments", "command_replaced", "descriptors_replaced", "foreign_descriptor", "pts_adjustment_nonzero", "pts_adjustment_wraps", "data_unchanged_between_encodings", "no_effect_call", "three_descriptors"},
+		RequiredProbes: []string{"encoded", "decoded_again", "reencoded_identical", "start_from_decoded", "flag_cleared_after_set", "value_beyond_field_width", "insert_cancelled", "insert_component_mode", "insert_with_duration", "descriptor_cancelled", "descriptor_components", "mid_set", "upid_set", "sub_segments", "command_replaced", "descriptors_replaced", "foreign_descriptor", "pts_adjustment_nonzero", "pts_adjustment_wraps", "data_unchanged_between_encodings", "no_effect_call", "three_descriptors", "component_edited_through_getter_object", "upid_of_a_mid_edited_through_getter_object", "sub_segment_flag_on_type_0x38_or_0x3A", "command_of_256_bytes_or_more"},
 	}
 }
 
 // ---------------------------------------------------------------------------
 // generator
 
-var c09Types = []int{0x10, 0x11, 0x20, 0x22, 0x30, 0x34, 0x34, 0x35, 0x36, 0x36, 0x37, 0x40, 0x50, 0x00, 0x01, 0xFF}
+var c09Types = []int{0x10, 0x11, 0x20, 0x22, 0x30, 0x34, 0x34, 0x35, 0x36, 0x36, 0x37, 0x38, 0x3A, 0x40, 0x50, 0x00, 0x01, 0xFF}
 
 func c09U33(r *core.Rand) uint64 {
 	return r.Pick64(0, 1, 90000, 1<<32, 1<<33-1, 1<<33-90000, r.U64()&(1<<33-1), r.U64()&(1<<33-1))
@@ -136,7 +136,7 @@ func c09GenCmd(r *core.Rand) ref.Cmd {
 		c.Time = ref.SpliceTime{Has: true, PTS: c09U33(r)}
 	}
 	if !c.Program {
-		for i := r.Pick(0, 1, 2, 4); i > 0; i-- {
+		for i := r.Pick(0, 1, 2, 4, 4, 40, 41, 42, 100, 255); i > 0; i-- {
 			k := ref.InsertComp{Tag: r.Intn(256)}
 			if !c.Immediate {
 				k.Time = ref.SpliceTime{Has: r.Chance(3, 4), PTS: c09U33(r)}
@@ -231,7 +231,7 @@ func (c09) Gen(r *core.Rand, tier string) interface{} {
 		case 11, 12, 13:
 			c := cmds[r.Intn(len(cmds))]
 			op = C09Op{Obj: c}
-			switch r.Intn(14) {
+			switch r.Intn(15) {
 			case 0, 1:
 				op.Op, op.B = "has_pts", r.Bool()
 			case 2, 3:
@@ -254,13 +254,16 @@ func (c09) Gen(r *core.Rand, tier string) interface{} {
 				op.Op, op.U = "dur", r.Pick64(c09U33(r), 1<<33, 1<<34+3)
 			case 12:
 				op.Op, op.U = r.PickS("upi", "avail", "avails"), uint64(r.Pick(0, 1, 255, 256, 65535))
+			case 13:
+				op.Op, op.U, op.B = "icomp_edit", uint64(r.Intn(5)), r.Bool()
+				op.Comps = []ref.SegComp{{Tag: r.Intn(256), Off: r.Pick64(c09U33(r), 1<<33+4)}}
 			default:
 				op.Op, op.B = "has_pts", true
 			}
 		default:
 			d := descs[r.Intn(len(descs))]
 			op = C09Op{Obj: d}
-			switch r.Intn(20) {
+			switch r.Intn(21) {
 			case 0:
 				op.Op, op.U = "event", r.U64()&0xFFFFFFFF
 			case 1:
@@ -303,6 +306,15 @@ func (c09) Gen(r *core.Rand, tier string) interface{} {
 				op.Op, op.U = r.PickS("seg_num", "seg_exp"), uint64(r.Pick(0, 1, 2, 255))
 			case 18:
 				op.Op, op.B = "has_sub", r.Bool()
+			case 19:
+				// through the objects the getters hand out
+				if r.Bool() {
+					op.Op, op.U = "comp_edit", uint64(r.Intn(4))
+					op.Comps = []ref.SegComp{{Tag: r.Intn(256), Off: r.Pick64(c09U33(r), 1<<33+2)}}
+				} else {
+					op.Op, op.U = "mid_edit", uint64(r.Intn(3))
+					op.MID = []ref.UPID{c09GenUPID(r)}
+				}
 			default:
 				op.Op, op.U = r.PickS("sub_num", "sub_exp"), uint64(r.Pick(0, 1, 255))
 			}
@@ -798,6 +810,34 @@ func c09CmdOp(c *core.Ctx, cm *c09Cmd, op C09Op) bool {
 		} else {
 			m.Time.PTS = op.U & c09Mask33
 		}
+	case "icomp_edit":
+		// edit a component of a (decoded) component-mode insert through the object that
+		// Components() hands out; there is no other way to change one
+		if !isIns || len(op.Comps) != 1 {
+			return true
+		}
+		var cs []scte35.Component
+		if !c.Call("SpliceInsertCommand.Components", func() { cs = ins.Components() }) {
+			return false
+		}
+		i := int(op.U)
+		if i >= len(cs) || i >= len(m.Comps) {
+			return true
+		}
+		k := op.Comps[0]
+		if !c.Call("Component setters", func() {
+			cs[i].SetComponentTag(byte(k.Tag))
+			cs[i].SetHasPTS(op.B)
+			cs[i].SetPTS(gots.PTS(k.Off))
+		}) {
+			return false
+		}
+		if k.Off > c09Mask33 {
+			c09Wide(c)
+		}
+		m.Comps = append([]ref.InsertComp(nil), m.Comps...)
+		m.Comps[i] = ref.InsertComp{Tag: k.Tag & 0xFF, Time: ref.SpliceTime{Has: op.B, PTS: k.Off & c09Mask33}}
+		c.Probe("component_edited_through_getter_object")
 	default:
 		if !isIns {
 			return true
@@ -921,6 +961,16 @@ func c09DescOp(c *core.Ctx, dd *c09Desc, op C09Op) bool {
 				l = append(l, x)
 			}
 			d.SetMID(l)
+		case "comp_edit":
+			if cs := d.Components(); len(op.Comps) == 1 && int(op.U) < len(cs) && int(op.U) < len(m.Comps) {
+				cs[op.U].SetComponentTag(byte(op.Comps[0].Tag))
+				cs[op.U].SetPTSOffset(gots.PTS(op.Comps[0].Off))
+			}
+		case "mid_edit":
+			if ms := d.MID(); len(op.MID) == 1 && int(op.U) < len(ms) && m.UPIDType == 0x0D && int(op.U) < len(m.MID) {
+				ms[op.U].SetUPIDType(scte35.SegUPIDType(op.MID[0].Type))
+				ms[op.U].SetUPID(append([]byte(nil), op.MID[0].Data...))
+			}
 		case "type":
 			d.SetTypeID(scte35.SegDescType(op.U))
 		case "seg_num":
@@ -997,6 +1047,22 @@ func c09DescOp(c *core.Ctx, dd *c09Desc, op C09Op) bool {
 			m.MID = append([]ref.UPID(nil), op.MID...)
 		} else {
 			c09NoEffect(c)
+		}
+	case "comp_edit":
+		if len(op.Comps) == 1 && int(op.U) < len(m.Comps) {
+			k := op.Comps[0]
+			if k.Off > c09Mask33 {
+				c09Wide(c)
+			}
+			m.Comps = append([]ref.SegComp(nil), m.Comps...)
+			m.Comps[op.U] = ref.SegComp{Tag: k.Tag & 0xFF, Off: k.Off & c09Mask33}
+			c.Probe("component_edited_through_getter_object")
+		}
+	case "mid_edit":
+		if len(op.MID) == 1 && m.UPIDType == 0x0D && int(op.U) < len(m.MID) {
+			m.MID = append([]ref.UPID(nil), m.MID...)
+			m.MID[op.U] = ref.UPID{Type: op.MID[0].Type & 0xFF, Data: append(core.Hex(nil), op.MID[0].Data...)}
+			c.Probe("upid_of_a_mid_edited_through_getter_object")
 		}
 	case "type":
 		m.Type = int(op.U & 0xFF)
@@ -1091,7 +1157,7 @@ func c09CmdGetters(c *core.Ctx, obj scte35.SpliceCommand, m ref.Cmd, who string,
 			ok = fail("insert.UniqueProgramId/AvailNum/AvailsExpected", fmt.Sprint(ins.UniqueProgramId(), ins.AvailNum(), ins.AvailsExpected()), fmt.Sprint(m.UPI, m.Avail, m.Avails))
 			return
 		}
-		if visible && !m.Program {
+		if (visible || len(m.Comps) > 0) && !m.Program {
 			cs := ins.Components()
 			if len(cs) != len(m.Comps) {
 				ok = fail("insert.Components:len", len(cs), len(m.Comps))
@@ -1102,7 +1168,7 @@ func c09CmdGetters(c *core.Ctx, obj scte35.SpliceCommand, m ref.Cmd, who string,
 					ok = fail("insert.Components:tag", cs[i].ComponentTag(), k.Tag)
 					return
 				}
-				if !m.Immediate {
+				if !m.Immediate || !visible {
 					if cs[i].HasPTS() != k.Time.Has || (k.Time.Has && uint64(cs[i].PTS()) != k.Time.PTS) {
 						ok = fail("insert.Components:time", fmt.Sprint(cs[i].HasPTS(), uint64(cs[i].PTS())), fmt.Sprint(k.Time.Has, k.Time.PTS))
 						return
@@ -1307,6 +1373,9 @@ func c09Encode(c *core.Ctx, sc scte35.SCTE35, sec ref.Section, lastEnc *[]byte, 
 			c.Probe("insert_with_duration")
 		}
 	}
+	if len(cm.Bytes()) >= 256 {
+		c.Probe("command_of_256_bytes_or_more")
+	}
 	if cm.CarriesTime() && sec.Adjust != 0 {
 		c.Probe("pts_adjustment_nonzero")
 		if sec.Adjust+cm.Time.PTS > c09Mask33 {
@@ -1327,6 +1396,12 @@ func c09Encode(c *core.Ctx, sc scte35.SCTE35, sec ref.Section, lastEnc *[]byte, 
 				}
 				if !d.subKnown && (d.m.Type == 0x34 || d.m.Type == 0x36) {
 					ambiguous = true
+				}
+				if d.m.HasSub && (d.m.Type == 0x38 || d.m.Type == 0x3A) {
+					// later editions of SCTE 35 give these types sub-segment fields too: either
+					// encoding is accepted, but it must survive decoding and re-encoding
+					ambiguous = true
+					c.Probe("sub_segment_flag_on_type_0x38_or_0x3A")
 				}
 			}
 			if !d.upidKnown {
@@ -1410,7 +1485,25 @@ func c09Encode(c *core.Ctx, sc scte35.SCTE35, sec ref.Section, lastEnc *[]byte, 
 		c.Fail("decode_inverse", "own_encoding_not_decoded:"+cm.Kind, err, "a signal")
 		return false
 	}
+	var ddata []byte
+	if !c.Call("SCTE35.Data(decoded)", func() { ddata = dsc.Data() }) {
+		return false
+	}
+	if !bytes.Equal(ddata, held) {
+		c.Fail("data_is_the_section", "decoded_data_differs_from_section", fmt.Sprintf("%x", ddata), fmt.Sprintf("%x", held))
+		return false
+	}
 	if ambiguous {
+		if sec.Stuffing == 0 {
+			var re []byte
+			if !c.Call("SCTE35.UpdateData(decoded)", func() { re = dsc.UpdateData() }) {
+				return false
+			}
+			if !bytes.Equal(re, held) {
+				c.Fail("reencode_identical", "reencoding_differs:"+c09Where(sec), fmt.Sprintf("%x", re), fmt.Sprintf("%x", held))
+				return false
+			}
+		}
 		return true
 	}
 	c.Probe("decoded_again")
